@@ -8,7 +8,9 @@ prop("C16",
                 "sampling). The full statement is FALSE for the code: seven deviations (a)-(g) each have a `counter_*` "
                 "theorem and a replay through the real compiler; they are listed as known findings. The model "
                 "(`compileSets`/`compileTable`) is compared with the dump of the REAL policy manager on every run, "
-                "and the walk runs on the real dump.",
+                "and the walk runs on the real dump. A second stream drives UPDATE transitions on a live manager over the "
+                "strict fakes (ipBlock surgery, pod relabel, policies deleted down to zero, one failing ipset create) and "
+                "compares the final sets / rules and every flow verdict with a from-scratch compile of the final state.",
      level_note="model of the compiler hand-written, tied to /repo by (T) regenerated prefixes / set-name formats / rule "
                 "templates / defaulting functions / shape facts (Generated/Policy.lean; template_* and fact_* theorems) and "
                 "(X) equality of the canonical dump of the real code with the model's compile output on generated "
